@@ -163,6 +163,8 @@ type world struct {
 	order    []string                // creation order
 	gone     map[string]bool         // observed gone (must stay gone)
 	delBegun map[string]bool         // a .del file existed before a restart
+	// sealedDelBegun: a complete sealed fraction had lost or renamed a file when the process crashed
+	sealedDelBegun map[string]bool
 }
 
 func vfail(step string, err error) error {
@@ -177,7 +179,7 @@ func runCase(c Case) (evid.Result, error) {
 	res := evid.Result{}
 	dir := evid.ScratchDir("c15")
 	defer os.RemoveAll(dir)
-	w := &world{fracDocs: map[string]model.Corpus{}, gone: map[string]bool{}, delBegun: map[string]bool{}}
+	w := &world{fracDocs: map[string]model.Corpus{}, gone: map[string]bool{}, delBegun: map[string]bool{}, sealedDelBegun: map[string]bool{}}
 	var p *harness.Proc
 	defer func() {
 		if p != nil {
@@ -305,6 +307,9 @@ func runCase(c Case) (evid.Result, error) {
 			// ("no file at all of a gone fraction") was tried and is NOT what seq-db does: meta
 			// files kept on request, the stale .index of a re-activated fraction and ._index /
 			// ._sdocs temp files of interrupted seals all outlive their fraction by design.
+			if w.sealedDelBegun[base] {
+				return evid.Failf("deletion-not-finished", "%s: the deletion of the sealed fraction %s had begun before the start (a file of it was removed or renamed), yet %s is still on disk", step, base, name)
+			}
 			if !strings.HasSuffix(name, ".docs") && !strings.HasSuffix(name, ".sdocs") {
 				continue
 			}
@@ -421,6 +426,20 @@ func runCase(c Case) (evid.Result, error) {
 			res.Labels = append(res.Labels, "crash@"+op.Point+op.Arg)
 			if fileKinds(p.Crash.Files) != fileKinds(before.Files) {
 				oddFileSet = true
+			}
+			// a sealed fraction (index + documents, no meta) that has lost or renamed a file at the
+			// crash: its deletion has begun on disk, the next start has to finish it off entirely
+			for base, kinds := range kindsByBase(before.Files) {
+				if !kinds[".index"] || kinds[".meta"] || !(kinds[".docs"] || kinds[".sdocs"]) {
+					continue
+				}
+				now := kindsByBase(p.Crash.Files)[base]
+				for k := range kinds {
+					if !now[k] {
+						w.sealedDelBegun[base] = true
+						res.Labels = append(res.Labels, "crash-inside-the-deletion-of-a-sealed-fraction")
+					}
+				}
 			}
 		case "overlap":
 			tainted := crashes > 0
@@ -617,6 +636,21 @@ func runCase(c Case) (evid.Result, error) {
 
 // fileKinds: the multiset of file suffixes per fraction, ignoring names (a crash state is
 // "odd" when it shows a combination of files no quiescent state has)
+func kindsByBase(files map[string]int64) map[string]map[string]bool {
+	out := map[string]map[string]bool{}
+	for name := range files {
+		i := strings.IndexByte(name, '.')
+		if i <= 0 || !strings.HasPrefix(name, "seq-db-") {
+			continue
+		}
+		if out[name[:i]] == nil {
+			out[name[:i]] = map[string]bool{}
+		}
+		out[name[:i]][name[i:]] = true
+	}
+	return out
+}
+
 func fileKinds(files map[string]int64) string {
 	per := map[string][]string{}
 	for name := range files {
